@@ -30,6 +30,7 @@ type OpOptions struct {
 	NodeRoot             bool // node(id:) as a client root field
 	RootTypename         bool
 	FragReuse            bool // one named fragment spread at two places
+	NullVars             bool // client variables explicitly set to null at nullable argument positions
 	TwinRoots            bool // one root field selected twice under two aliases with different selections below
 	UnevenIDs            bool // every member of an abstract type is selected, but `id` only in some of the fragments
 	UnionPartial         bool // union selections that leave a member type without a selected id (findings C01-b/c)
@@ -116,6 +117,16 @@ func (g *opGen) argString(f *ast.FieldDefinition) string {
 				}
 				g.feat["input_object_argument"] = true
 			}
+			continue
+		}
+		if g.opt.Variables && g.opt.NullVars && !a.Type.NonNull && g.rng.Intn(5) == 0 {
+			// a client variable explicitly set to null: still a value the sub-request must carry
+			name := fmt.Sprintf("v%d", len(g.vars))
+			g.vars = append(g.vars, "$"+name+": "+a.Type.String())
+			g.vals[name] = nil
+			g.feat["variables"] = true
+			g.feat["null_variable"] = true
+			parts = append(parts, a.Name+": $"+name)
 			continue
 		}
 		if g.opt.Variables && g.rng.Intn(2) == 0 {
